@@ -271,6 +271,16 @@ let check_tokens (cfg : econfig) (ops : eop list) (tr : tok list) : unit =
              if zi r.r_ver < zi e.e_ver && (touched || has_ack) then bad "C04" "event newer than the record (version %d, record %d) was processed or acknowledged" (zi e.e_ver) (zi r.r_ver)
            | _ -> ())
         | _ -> ());
+       (* C16: "every function sees the persisted object" — also where a replica lags, as far as a handler can tell: a function never
+          runs on a version OLDER than the announcement it is handling (that announcement proves a later write exists) *)
+       (match u, ev with
+        | (EStep _ | EInserter _), Some e when on "C16" ->
+          List.iter (function
+            | TUser (fu, view, _, _, _) when is_step_fn fu && view.r_run = e.e_run && zi view.r_ver < zi e.e_ver ->
+              bad "C16" "function %d ran on version %d of run %d although the announcement it handles carries version %d: it did not see the persisted object"
+                (zi (ufun_code fu)) (zi view.r_ver) (ni view.r_run) (zi e.e_ver)
+            | _ -> ()) body
+        | _ -> ());
        (* C06: who receives *)
        (match recv with
         | Some (TRecv e) when on "C06" ->
